@@ -26,7 +26,45 @@ type bytesIn struct {
 // genImage draws a byte string that has a fair chance of being accepted by the message decoder.
 func genImage(t *rapid.T) bytesIn {
 	m := gen.Message(t, gen.Opts{MaxPayloads: 6, NoBig: true})
-	switch gen.Pick(t, "imageclass", 3, 3, 8, 1, 4, 3, 2) {
+	switch gen.Pick(t, "imageclass", 3, 3, 8, 1, 4, 3, 2, 2) {
+	case 7:
+		// an SA payload whose proposals carry transforms of type codes nobody has assigned (0, 6..255) next to the usual ones -
+		// some proposals nothing else: the decoder accepts or refuses; if it accepts and the message encodes again, it is stable
+		var body []byte
+		np := rapid.IntRange(1, 4).Draw(t, "unk.nprop")
+		for pi := 0; pi < np; pi++ {
+			var trs []byte
+			nt := rapid.IntRange(1, 4).Draw(t, "unk.ntrans")
+			onlyUnknown := rapid.IntRange(0, 2).Draw(t, "unk.only") == 0
+			for ti := 0; ti < nt; ti++ {
+				ty := rapid.SampledFrom([]byte{0, 6, 7, 200, 255}).Draw(t, "unk.type")
+				if !onlyUnknown && rapid.Bool().Draw(t, "unk.known") {
+					ty = byte(rapid.IntRange(1, 5).Draw(t, "unk.ktype"))
+				}
+				last := byte(3)
+				if ti == nt-1 {
+					last = 0
+				}
+				trs = append(trs, last, 0, 0, 8, ty, 0, 0, byte(rapid.IntRange(0, 20).Draw(t, "unk.id")))
+			}
+			last := byte(2)
+			if pi == np-1 {
+				last = 0
+			}
+			n := 8 + len(trs)
+			body = append(body, last, 0, byte(n>>8), byte(n), byte(pi+1), 1, 0, byte(nt))
+			body = append(body, trs...)
+		}
+		ps := gen.Payloads(t, gen.Opts{MaxPayloads: 2, NoBig: true})
+		at := rapid.IntRange(0, len(ps)).Draw(t, "unk.at")
+		all := append([]model.Payload(nil), ps[:at]...)
+		all = append(all, model.Payload{Kind: model.KRaw, Raw: &model.Raw{Type: 33, Body: body}})
+		all = append(all, ps[at:]...)
+		w, err := ref.EncodeMessage(model.Message{Header: m.Header, Payloads: all}, nil)
+		if err != nil {
+			panic(err)
+		}
+		return bytesIn{W: w, Origin: "sa-with-unassigned-transform-types"}
 	case 0:
 		// canonical: zero liberties, transforms in ascending type order
 		m = m.Normalize()
